@@ -685,6 +685,7 @@ pub fn observe_err(e: &reval::Error) -> OErr {
                 Some(E::UserFunctionError { function: inner, .. }) => inner.strip_prefix("inner#").and_then(|t| t.parse().ok()),
                 // a failed conversion inside the user function (`param.try_into()?`), token in the value
                 Some(E::UnexpectedValueType(reval::value::Value::Int(t), who)) if who == "harness" => u64::try_from(*t).ok(),
+                Some(E::UnexpectedValueType(reval::value::Value::None, who)) => who.strip_prefix("harness#").and_then(|t| t.parse().ok()),
                 _ => None,
             }),
             // the message and what the carried error still *is* (a caller may downcast it)
